@@ -225,12 +225,34 @@ Print Assumptions C13_unclean_root_refuted.
    [stream_sees v add_root members] (Model/TarStream.v) is what Tar() encodes from TarReader.Next
    (v = ReaderFixed: the synthetic root first, then every member). *)
 
-(* No member is lost: the archive is the synthetic root holding exactly the members, in stream order. *)
-Theorem C13_stream_addroot : forall cs,
+(* No member is lost, and the stream's own root members ("./", ".", "./.": path.Clean = ".") are
+   all dropped, wherever they stand and however many there are: if what is left after taking them
+   out is the content cs of a directory, the archive is the synthetic root holding exactly cs. *)
+Theorem C13_stream_addroot : forall ms cs,
   Forall (fun nc : bytes * node => real_elem (fst nc) /\ names_real (snd nc)) cs ->
-  stream_sees ReaderFixed true (members_of cs) = Some (NDir stream_root_meta [] cs, []).
+  filter (fun e => negb (is_root_member e)) ms = members_of cs ->
+  stream_sees ReaderFixed true ms = Some (NDir stream_root_meta [] cs, []).
 Proof. exact stream_addroot_proof. Qed.
 Print Assumptions C13_stream_addroot.
+
+(* in particular a stream without any root member (no file below "." is itself ".") *)
+Theorem C13_stream_addroot_plain : forall cs,
+  Forall (fun nc : bytes * node => real_elem (fst nc) /\ names_real (snd nc)) cs ->
+  stream_sees ReaderFixed true (members_of cs) = Some (NDir stream_root_meta [] cs, []).
+Proof. exact stream_addroot_plain_proof. Qed.
+Print Assumptions C13_stream_addroot_plain.
+
+(* What the skip LOOP is for (b406c8c): with the loop written as an `if` (ReaderSkipsOne) two root
+   members in a row leave the second one as an entry named "." holding the tree; without any
+   skipping (ReaderNoSkip, before b406c8c) one root member is enough. *)
+Theorem C13_stream_skips_one_refuted :
+  let ms := root_member [dot] :: root_member [dot] :: members_of ex_stream_members in
+  stream_sees ReaderSkipsOne true ms = Some (NDir stream_root_meta [] [([dot], NDir ex_meta [] ex_stream_members)], []) /\
+  stream_sees ReaderFixed true ms = Some (NDir stream_root_meta [] ex_stream_members, []) /\
+  stream_sees ReaderNoSkip true (root_member [dot] :: members_of ex_stream_members) =
+    Some (NDir stream_root_meta [] [([dot], NDir ex_meta [] ex_stream_members)], []).
+Proof. exact stream_skips_one_refuted_proof. Qed.
+Print Assumptions C13_stream_skips_one_refuted.
 
 (* What the order of the two opening blocks of TarReader.Next is for: reading a member before the
    root is handed out loses the first member ("a" below), and an empty stream gives io.EOF instead
